@@ -317,58 +317,67 @@ structure LWorld where
   timers : List LTimer
 deriving DecidableEq, Repr
 
-/-- `TimerFuture::poll` (lib.rs:181-204) when the task is run: the cleared set is consulted (and the id removed) before
-    the inner request future. Returns (cleared set, output of the future if ready). -/
-def timerFuturePoll (cleared : List Nat) (id : Nat) (answer : Option Resp) : List Nat × Option Resp :=
-  if cleared.contains id then (cleared.erase id, some (.cleared id))
-  else (cleared, answer)
+/-- what a step does to CLEARED_TIMER_IDS, always for the addressed timer's own id -/
+inductive SetOp where
+  | keep | insert | erase
+deriving DecidableEq, Repr
 
-/-- `notify_after/notify_at` (lib.rs:93-149), optionally followed by `clear(id)` in the same `update`; then the
-    spawned tasks run in spawn order (timer first, then the Clear notification). -/
-def lstart (counter : Nat) (cleared : List Nat) (t : LTimer) (andClear : Bool) : Nat × List Nat × LTimer × Out :=
-  match t.id with
-  | some _ => (counter, cleared, t, { res := .na })
-  | none =>
-    let (id, counter') := allocId counter
-    let cleared1 := if andClear then (if cleared.contains id then cleared else id :: cleared) else cleared
-    let (cl, out) := timerFuturePoll cleared1 id none
-    let clrEff := if andClear then [Eff.clear id] else []
-    let clears := if andClear then 1 else 0
-    match out with
-    | some v => (counter', cl, { t with id := some id, finished := true, clears := clears },
-                 { effects := clrEff, events := [.got v] })
-    | none => (counter', cl, { t with id := some id, req := { shell := .held }, clears := clears },
-               { effects := .notify t.kind id :: clrEff })
+def applyOp (op : SetOp) (id : Nat) (s : List Nat) : List Nat :=
+  match op with
+  | .keep => s
+  | .insert => if s.contains id then s else id :: s    -- HashSet::insert (lib.rs:154-155)
+  | .erase => s.erase id                               -- HashSet::remove (lib.rs:190-193)
 
-def lstepTimer (counter : Nat) (cleared : List Nat) (t : LTimer) : LAct → Nat × List Nat × LTimer × Out
-  | .start => lstart counter cleared t false
-  | .startClear => lstart counter cleared t true
+/-- One step of one legacy timer. `inSet`: is its id (for a start: the id it is about to get) in CLEARED_TIMER_IDS;
+    `newId`: the id the counter would hand out. Result: timer, observation, what happens to the set, whether an id was
+    allocated.
+    `TimerFuture::poll` (lib.rs:181-204) consults the set (and removes the id) before the inner request future, so a
+    cleared timer reports `Cleared{id}` whatever the shell answered — but only when its task is polled, i.e. when it
+    is spawned or when the shell resolves its request (`clear` wakes nobody). -/
+def lstep1 (t : LTimer) (inSet : Bool) (newId : Nat) : LAct → LTimer × Out × SetOp × Bool
+  | .start =>
+    -- `notify_after/notify_at` (lib.rs:93-149): allocate, spawn; the task is polled by the core's `run_all`
+    match t.id with
+    | some _ => (t, { res := .na }, .keep, false)
+    | none =>
+      if inSet then ({ t with id := some newId, finished := true }, { events := [.got (.cleared newId)] }, .erase, true)
+      else ({ t with id := some newId, req := { shell := .held } }, { effects := [.notify t.kind newId] }, .keep, true)
+  | .startClear =>
+    -- the same `update` also calls `clear(id)`: the id is inserted before any task runs; tasks then run in spawn
+    -- order: the timer's (finds its id: Cleared, nothing sent), then the Clear notification (lib.rs:151-163)
+    match t.id with
+    | some _ => (t, { res := .na }, .keep, false)
+    | none => ({ t with id := some newId, finished := true, clears := 1 },
+               { effects := [.clear newId], events := [.got (.cleared newId)] }, .erase, true)
   | .clear =>
     match t.id with
-    | none => (counter, cleared, t, { res := .na })
-    -- lib.rs:151-163: the id is inserted (HashSet) and a Clear notification is sent, unconditionally
-    | some id => (counter, if cleared.contains id then cleared else id :: cleared,
-                  { t with clears := t.clears + 1 }, { effects := [.clear id] })
+    | none => (t, { res := .na }, .keep, false)
+    -- lib.rs:151-163: the id is inserted and a Clear notification is sent, unconditionally
+    | some id => ({ t with clears := t.clears + 1 }, { effects := [.clear id] }, .insert, false)
   | .resolveReq s =>
     match t.id with
-    | none => (counter, cleared, t, { res := .na })
+    | none => (t, { res := .na }, .keep, false)
     | some id =>
       let (r, res) := t.req.resolve (respOf t.kind id s)
       if res == .ok && !t.finished then
         -- the task is woken and run by `Core::resolve`
-        let (cl, out) := timerFuturePoll cleared id r.answer
-        match out with
-        | some v => (counter, cl, { t with req := r, finished := true }, { res := res, events := [.got v] })
-        | none => (counter, cl, { t with req := r }, { res := res })
-      else (counter, cleared, { t with req := r }, { res := res })
+        if inSet then ({ t with req := r, finished := true }, { res := res, events := [.got (.cleared id)] }, .erase, false)
+        else ({ t with req := r, finished := true }, { res := res, events := [.got (respOf t.kind id s)] }, .keep, false)
+      else ({ t with req := r }, { res := res }, .keep, false)
   | .dropReq =>
     -- shell_request.rs:91-112: the callback holds a weak pointer, dropping it wakes nobody
     let (r, res) := t.req.drop
-    (counter, cleared, { t with req := r }, { res := res })
+    ({ t with req := r }, { res := res }, .keep, false)
   | .resolveClr =>
     -- a notification: `Resolve::Never` (resolve.rs:92)
-    (counter, cleared, t, { res := if t.clears = 0 then .na else .err })
-  | .tick => (counter, cleared, t, {})
+    (t, { res := if t.clears = 0 then .na else .err }, .keep, false)
+  | .tick => (t, {}, .keep, false)
+
+def lstepTimer (counter : Nat) (cleared : List Nat) (t : LTimer) (a : LAct) : Nat × List Nat × LTimer × Out :=
+  let newId := (allocId counter).1
+  let id := t.id.getD newId
+  let r := lstep1 t (cleared.contains id) newId a
+  (if r.2.2.2 then (allocId counter).2 else counter, applyOp r.2.2.1 id cleared, r.1, r.2.1)
 
 /-- one case step; only the addressed timer does (and shows) anything -/
 def lstep (w : LWorld) (a : LAct) (i : Nat) : LWorld × Out :=
